@@ -23,6 +23,7 @@ import Relic.Driver.C19
 import Relic.Driver.C17
 import Relic.Driver.C14
 import Relic.Driver.C11
+import Relic.Driver.MachO
 import Relic.Driver.Pgp
 import Relic.Driver.Appx
 import Relic.Driver.Deb
@@ -56,6 +57,7 @@ def dispatch (line : String) : String :=
   | "C17" :: rest => Relic.Driver.C17.handle rest
   | "C14" :: rest => Relic.Driver.C14.handle rest
   | "C11" :: rest => Relic.Driver.C11.handle rest
+  | "MACHO" :: rest => Relic.Driver.MachO.handle rest
   | "PGP" :: rest => Relic.Driver.Pgp.handle rest
   | "APPX" :: rest => Relic.Driver.Appx.handle rest
   | "DEB" :: rest => Relic.Driver.Deb.handle rest
